@@ -154,13 +154,43 @@ def gen_ops(r, n):
     return ops
 
 
+def breeding_ops(n):
+    """create two, then keep crossing the latest offspring with each other and with the founders, mutating and mapping in between"""
+    ops, size = [["create"], ["create"]], 2
+    last = [0, 1]
+    for i in range(n):
+        ops.append(["cross", last[0], last[1]])
+        a, b = size, size + 1
+        size += 2
+        ops.append(["map", a])
+        if i % 2 == 0:
+            ops.append(["mutate", a]); size += 1
+        last = [a, b] if i % 3 else [a, 0]
+    return ops
+
+
 def gen_cases(r, tier, n_random=8):
     big = tier == "thorough"
     cases = []
-    for d in decl_family():
+    fam = decl_family()
+    for d in fam:
         for rep in rep_specs(r):
             for _ in range(2 if not big else 6):
                 cases.append({"op": "rep", "decl": d, "rep": rep, "seed": r.randrange(10**6), "ops": gen_ops(r, 7 if not big else 14)})
+    # boundary answers of the shared source: every draw returns the lowest / highest value of the range it was asked for
+    for d in fam[:2]:
+        for rep in ({"kind": "ge", "decider": ["max", 3], "gene_length": 1}, {"kind": "ge", "decider": ["max", 3], "gene_length": 3},
+                    {"kind": "sge", "decider": ["max", 3], "gene_length": 2}, {"kind": "dsge", "max_depth": 3}):
+            # (not the stack representation: its mapping loop does not terminate on a genotype of identical codons)
+            for pol in ("min", "max", "alt"):
+                cases.append({"op": "rep", "decl": d, "rep": rep, "seed": 0, "shared": pol,
+                              "ops": [["create"], ["create"], ["mutate", 0], ["mutate", 2], ["cross", 0, 1], ["mutate", 3], ["map", 0], ["map", 0], ["cross", 2, 4], ["mutate", 5]]})
+    # several generations of tree crossover on a grammar whose concrete start symbol recurs inside programs
+    breed = [fam[3], H([A(), P(0, INT), P(0, S(0), S(0)), P(0, S(1), S(2), S(0))], start=2)]
+    for d in breed:
+        for dec in (["max", 4], ["pi", 5], ["full", 3]):
+            for _ in range(2 if not big else 6):
+                cases.append({"op": "rep", "decl": d, "rep": {"kind": "tree", "decider": dec}, "seed": r.randrange(10**6), "ops": breeding_ops(6 if not big else 12)})
     for _ in range(n_random if not big else 5 * n_random):
         d = grammars.gen_decl(r, {"weights": False, "tuples": True, "dependent": False})
         for rep in r.sample(rep_specs(r), 2):
